@@ -104,6 +104,8 @@ type (
 	Shrinker interface {
 		Shrink(payload any, still func(any) bool) any
 	}
+	// ChildEnv adds environment variables to the worker processes (e.g. GORACE).
+	ChildEnv interface{ ChildEnv(env *Env) []string }
 	// Finisher lets a property add run-level conclusions once all results are in
 	// (only evidence extras and inconclusive conditions, never verdicts on cases).
 	Finisher interface {
@@ -626,7 +628,11 @@ func supervise(p Prop, env *Env, override int, racebin string) int {
 		got := map[int]Result{}
 		startAt := 0
 		for attempt := 0; attempt < len(wits)+1 && startAt < len(wits); attempt++ {
-			done, _, stderr := runChild(bin, append(append([]string{}, base...), "-witnesses"), []string{"VERIF_WIT_START=" + fmt.Sprint(startAt)}, func(r Result) { got[r.Idx] = r })
+			wenv := []string{"VERIF_WIT_START=" + fmt.Sprint(startAt)}
+			if ce, ok := p.(ChildEnv); ok {
+				wenv = append(wenv, ce.ChildEnv(env)...)
+			}
+			done, _, stderr := runChild(bin, append(append([]string{}, base...), "-witnesses"), wenv, func(r Result) { got[r.Idx] = r })
 			if done {
 				break
 			}
@@ -703,7 +709,11 @@ func supervise(p Prop, env *Env, override int, racebin string) int {
 				os.Remove(jpath)
 				args := append(append([]string{}, base...), "-shard", fmt.Sprint(s), "-of", fmt.Sprint(nw), "-start", fmt.Sprint(start), "-journal", jpath)
 				seen := map[int]bool{}
-				done, err, stderr := runChild(bin, args, nil, func(r Result) { seen[r.Idx] = true; a.add(r) })
+				var extraEnv []string
+				if ce, ok := p.(ChildEnv); ok {
+					extraEnv = ce.ChildEnv(env)
+				}
+				done, err, stderr := runChild(bin, args, extraEnv, func(r Result) { seen[r.Idx] = true; a.add(r) })
 				if done {
 					return
 				}
@@ -877,7 +887,11 @@ func superReplay(p Prop, env *Env, path, racebin string) int {
 	}
 	var got *Result
 	args := []string{"-prop", p.ID(), "-tier", rf.Tier, "-seed", fmt.Sprint(rf.Seed), "-repo", env.Repo, "-verif", env.Verif, "-build", env.Build, "-worker", "-replay", path}
-	done, _, stderr := runChild(bin, args, nil, func(r Result) { got = &r })
+	var renv []string
+	if ce, ok := p.(ChildEnv); ok {
+		renv = ce.ChildEnv(env)
+	}
+	done, _, stderr := runChild(bin, args, renv, func(r Result) { got = &r })
 	if got == nil {
 		if !done {
 			fmt.Printf("replay: child died: %s\n", truncate(crashHead(stderr), 2000))
